@@ -709,7 +709,10 @@ void    mktemplate (int state[], int statenum, int comstate)
 		}
 
 	if (ctrl.usemecs)
-		mkeccl (transset, tsptr, tecfwd, tecbck, numecs, 0);
+		/* Class 256 (NUL when there are no equivalence classes)
+		 * is stored as 0 in transset: have it mapped back.
+		 */
+		mkeccl (transset, tsptr, tecfwd, tecbck, numecs, CSIZE);
 
 	mkprot (tnxt + tmpbase, -numtemps, comstate);
 
